@@ -120,6 +120,7 @@ Definition run_cmd (m : ovf_mode) (cmd : tok) (args : list tok) : list byte :=
   else if tok_is cmd "VALIDATE" then run_validate args
   else if tok_is cmd "OPS" then run_ops m args
   else if tok_is cmd "DEC" then run_dec args
+  else if tok_is cmd "DECA" then S_ "NA"        (* allocation measurement: implementation only *)
   else if tok_is cmd "ENC" then run_enc args
   else if tok_is cmd "CRCV" then run_crcv args
   else if tok_is cmd "RT" then run_rt args
